@@ -195,6 +195,12 @@ fn compile_imm(goenv: &GlobalGoEnv, imm: &anf::ImmExpr) -> goast::Expr {
                 ty: tast_ty_to_go_type(&imm_ty(imm)),
             }
         }
+        // the entry point is declared as `main0` (Go's `main` only calls it and has no result): a
+        // program that names its entry point - calls it, passes it on - means that function
+        anf::ImmExpr::ImmVar { name, ty: _ } if is_entry_point(name) => goast::Expr::Var {
+            name: ENTRY_POINT_GO_NAME.to_string(),
+            ty: tast_ty_to_go_type(&imm_ty(imm)),
+        },
         anf::ImmExpr::ImmVar { name, ty: _ } => goast::Expr::Var {
             name: go_ident(name),
             ty: tast_ty_to_go_type(&imm_ty(imm)),
@@ -208,6 +214,13 @@ fn compile_imm(goenv: &GlobalGoEnv, imm: &anf::ImmExpr) -> goast::Expr {
             ty: variant_ty_by_index(goenv, ty, *index),
         },
     }
+}
+
+const ENTRY_POINT_GO_NAME: &str = "main0";
+
+/// the entry point is Main's `main`; a function `main` of another package is an ordinary function
+fn is_entry_point(name: &str) -> bool {
+    name == "main" || name == "Main::main"
 }
 
 fn imm_ty(imm: &anf::ImmExpr) -> tast::Ty {
@@ -2436,10 +2449,8 @@ fn compile_fn(goenv: &GlobalGoEnv, gensym: &Gensym, f: anf::Fn) -> goast::Fn {
 
     let go_ret_ty = tast_ty_to_go_type(&f.ret_ty);
 
-    // the entry point is Main's `main`; a function `main` of another package is an ordinary function
-    let is_entry = f.name == "main" || f.name == "Main::main";
-    let patched_name = if is_entry {
-        "main0".to_string()
+    let patched_name = if is_entry_point(&f.name) {
+        ENTRY_POINT_GO_NAME.to_string()
     } else {
         go_ident(&f.name)
     };
